@@ -163,10 +163,23 @@ func parseGuard(g string) (guardSpec, error) {
 func guardClauseResults(eng *vc.Engine, fname string) []StructResult {
 	spec := eng.Spec.Funcs[fname]
 	fn := eng.Func(fname)
-	if spec == nil || fn == nil || (len(spec.Guards) == 0 && len(spec.Orders) == 0 && len(spec.Reads) == 0 && len(spec.ControlOnly) == 0) {
+	if spec == nil || fn == nil || (len(spec.Guards) == 0 && len(spec.Orders) == 0 && len(spec.Reads) == 0 && len(spec.ControlOnly) == 0 && len(spec.FeedsOnly) == 0) {
 		return nil
 	}
 	var out []StructResult
+	for _, fc := range spec.FeedsOnly {
+		st := structOfPkg(fn, fc.Type)
+		if st == nil {
+			out = append(out, StructResult{Name: fmt.Sprintf("%s#feeds:%s", fname, fc.Type), Desc: "struct type exists", OK: false, Status: "unbound", Detail: "type not found"})
+			continue
+		}
+		bad := feedsUnchanged(fn, fc.Type, fc.Into)
+		for i := 0; i < st.NumFields(); i++ {
+			f := st.Field(i).Name()
+			why, isBad := bad[f]
+			out = append(out, StructResult{Name: fmt.Sprintf("%s#feeds:%s.%s", fname, fc.Type, f), Desc: fmt.Sprintf("the value of %s.%s reaches %s unchanged", fc.Type, f, strings.Join(fc.Into, "/")), OK: !isBad, Detail: why})
+		}
+	}
 	for _, tf := range spec.ControlOnly {
 		tn, field, ok := strings.Cut(tf, ".")
 		name := fmt.Sprintf("%s#control-only:%s", fname, tf)
@@ -470,4 +483,114 @@ func controlOnly(fn *ssa.Function, tname, field string) (bool, string, int) {
 		scanCalls(f)
 	}
 	return true, "", nLoads
+}
+
+// feedsUnchanged: for every load of a field of struct tname in fn, follow the
+// value forward; allowed: boxing into an interface, conversions, being stored
+// into a variadic argument array whose slice is passed to an allowed call,
+// being passed directly to an allowed call, debug references. Anything else
+// (append, copy, sort, other calls, arithmetic) is reported per field.
+func feedsUnchanged(fn *ssa.Function, tname string, into []string) map[string]string {
+	bad := map[string]string{}
+	allowedCall := func(c ssa.CallInstruction) bool {
+		for _, n := range into {
+			if vc.AnchorMatches(c, "call:"+n) {
+				return true
+			}
+		}
+		return false
+	}
+	var follow func(v ssa.Value, seen map[ssa.Value]bool) string
+	follow = func(v ssa.Value, seen map[ssa.Value]bool) string {
+		if seen[v] {
+			return ""
+		}
+		seen[v] = true
+		refs := v.Referrers()
+		if refs == nil {
+			return ""
+		}
+		for _, r := range *refs {
+			switch u := r.(type) {
+			case *ssa.DebugRef:
+			case *ssa.MakeInterface, *ssa.Convert, *ssa.ChangeType, *ssa.ChangeInterface:
+				if why := follow(u.(ssa.Value), seen); why != "" {
+					return why
+				}
+			case *ssa.Store:
+				if u.Val != v {
+					return "its address is written through"
+				}
+				// stored into a variadic argument slot: follow the array
+				ia, ok := u.Addr.(*ssa.IndexAddr)
+				if !ok {
+					return "stored into memory"
+				}
+				al, ok := ia.X.(*ssa.Alloc)
+				if !ok || al.Comment != "varargs" {
+					return "stored into memory"
+				}
+				arefs := al.Referrers()
+				if arefs != nil {
+					for _, ar := range *arefs {
+						if sl, isSl := ar.(*ssa.Slice); isSl {
+							if why := follow(sl, seen); why != "" {
+								return why
+							}
+						}
+					}
+				}
+			case ssa.CallInstruction:
+				if !allowedCall(u) {
+					name := "a call"
+					if c := u.Common().StaticCallee(); c != nil {
+						name = c.RelString(nil)
+					} else if b, isB := u.Common().Value.(*ssa.Builtin); isB {
+						name = "builtin " + b.Name()
+					}
+					return "passed to " + name
+				}
+			default:
+				return fmt.Sprintf("used by %T", r)
+			}
+		}
+		return ""
+	}
+	for _, b := range fn.Blocks {
+		for _, ins := range b.Instrs {
+			var fieldName string
+			var val ssa.Value
+			switch x := ins.(type) {
+			case *ssa.UnOp:
+				if x.Op != token.MUL {
+					continue
+				}
+				fa, ok := x.X.(*ssa.FieldAddr)
+				if !ok {
+					continue
+				}
+				pt, ok := fa.X.Type().Underlying().(*types.Pointer)
+				if !ok {
+					continue
+				}
+				n, isN := pt.Elem().(*types.Named)
+				if !isN || n.Obj().Name() != tname {
+					continue
+				}
+				fieldName, val = n.Underlying().(*types.Struct).Field(fa.Field).Name(), x
+			case *ssa.Field:
+				n, isN := x.X.Type().(*types.Named)
+				if !isN || n.Obj().Name() != tname {
+					continue
+				}
+				fieldName, val = n.Underlying().(*types.Struct).Field(x.Field).Name(), x
+			default:
+				continue
+			}
+			if why := follow(val, map[ssa.Value]bool{}); why != "" {
+				bad[fieldName] = why
+			}
+		}
+	}
+	return bad
 }
